@@ -208,7 +208,7 @@ def scout_length(step, slots, fuel):
 
 
 def run_steps(steps, envs, *, faults, fuel, use_clock=True, observe_ids=None, shim=None,
-              late_observe=False):
+              late_observe=False, clock_marks=False):
     """Execute ``steps`` in order. Returns a list of records, one per step.
 
     record = {"id", "status", "obs"?, "exc"?, "clock", "fault"?, "attempts"}
